@@ -231,23 +231,26 @@ def run(prop, tier, seed):
                     verdict.machinery.append("tlc -simulate produced no behaviour: " + mr["out"][-500:])
             except Exception as e:
                 verdict.machinery.append("model-derived stimuli failed: %r" % (e,))
-        mruns = batch.run_many(model_scs) if model_scs else []
-        for i, r in enumerate(mruns):
-            r["profile"] = "model:" + spec["mc_quick"][0]
-            r["seed"] = i
         runs, st = batch.batch(jobs, scratch)
-        mok = [r for r in mruns if r.get("trace") is not None]
-        if mok:
-            mv, mst = tlcrun.monitor_traces([r["trace"] for r in mok], scratch)
-            for r, v in zip(mok, mv):
-                r["verdict"] = v
-            mres, mcst = tlcrun.conform_traces([r["trace"] for r in mok], scratch)
-            st["lines"] += sum(len(r["trace"]) for r in mok)
-            st["states"] += mst["states"]
-            st["errors"] += mst["errors"]
-            model_conf = sum(1 for c in mres if c is not None and c[0] >= c[1])
-        else:
-            model_conf = 0
+        # (model-derived scenarios: monitor pass and strict pass, a chunk at a time)
+        mruns, mok_n, model_conf = [], 0, 0
+        for a in range(0, len(model_scs), batch.CHUNK):
+            part = batch.run_many(model_scs[a:a + batch.CHUNK])
+            for i, r in enumerate(part):
+                r["profile"] = "model:" + spec["mc_quick"][0]
+                r["seed"] = a + i
+            mok = [r for r in part if r.get("trace") is not None]
+            if mok:
+                mv, mst = tlcrun.monitor_traces([r["trace"] for r in mok], scratch)
+                for r, v in zip(mok, mv):
+                    r["verdict"] = v
+                mres, mcst = tlcrun.conform_traces([r["trace"] for r in mok], scratch)
+                st["lines"] += sum(len(r["trace"]) for r in mok)
+                st["states"] += mst["states"]
+                st["errors"] += mst["errors"]
+                model_conf += sum(1 for c in mres if c is not None and c[0] >= c[1])
+                mok_n += len(mok)
+            mruns += [batch._slim(r) for r in part]
         runs = runs + mruns
         nviol = 0
         samples = []
@@ -267,7 +270,7 @@ def run(prop, tier, seed):
                 hits[c] = hits.get(c, 0) + 1
                 rep = {"kind": "sim-scenario", "profile": r["profile"], "seed": r["seed"], "clause": c,
                        "line": line, "scenario": r["scenario"],
-                       "context": checklib.short_trace(r["trace"], line - 1)}
+                       "context": r.get("ctx", {}).get(line) or checklib.short_trace(r["trace"], line - 1)}
                 what = "%s false at line %d of the trace of %s/%d" % (c, line, r["profile"], r["seed"])
                 if kf:
                     verdict.attributed(kf, what, rep)
@@ -285,12 +288,12 @@ def run(prop, tier, seed):
         for prof, (nq, nt) in sorted(spec["conf"].items()):
             n = nq if quick else nt
             cjobs += [(prof, seed * 1000003 + i) for i in range(n)]
-        cruns = batch.run_many(cjobs)
-        ctr = [r for r in cruns if r.get("trace") is not None]
-        cres, cst = tlcrun.conform_traces([r["trace"] for r in ctr], scratch)
+        cpairs, cst = batch.conform(cjobs, scratch)
+        ctr = [r for r, c in cpairs]
+        cres = [c for r, c in cpairs]
         conf_ok = sum(1 for c in cres if c is not None and c[0] >= c[1])
         divergences = [{"profile": r["profile"], "seed": r["seed"], "matched": c[0], "of": c[1]}
-                       for r, c in zip(ctr, cres) if c is not None and c[0] < c[1]]
+                       for r, c in cpairs if c is not None and c[0] < c[1]]
         for d in divergences[:5]:
             print("DIVERGENCE (no property verdict): %s/%d matches Core up to line %d of %d" % (
                 d["profile"], d["seed"], d["matched"], d["of"]))
@@ -312,7 +315,7 @@ def run(prop, tier, seed):
                + int(extra_cov.get("traces_validated_against_impl", 0)),
                "monitor_traces": len(runs), "monitor_lines": st["lines"], "monitor_states": st["states"],
                "conformance_traces": len(ctr), "conformance_full": conf_ok,
-               "model_derived_scenarios": len(mok), "model_derived_conform_to_core": model_conf,
+               "model_derived_scenarios": mok_n, "model_derived_conform_to_core": model_conf,
                "conformance_divergences": divergences[:20], "conformance_states": cst["states"],
                "clause_hits": hits, "samples": samples,
                "exhaustive": all(c["complete"] for c in mc["configs"]),
